@@ -41,7 +41,7 @@ type Save struct {
 
 var recSession = ev.New("C16", "c16.watch-session",
 	"a module of 2-3 templates (one Go expression and one static text each) and an HTTP server rendering all of them is run under generatecmd.Run with Watch and Command (`go run .`), the way `templ generate --watch --cmd` runs it; generated bursts of 1-3 saves (text-only or expression edits of different files, 0-60 ms apart; half of the bursts are an expression edit followed by a text edit of another file) are written to disk. "+
-		"Oracle: after every burst the running program's response becomes exactly what a fresh build of the directory renders (computed from the model) - a response that is still different after max(30 s, 6 x the session's own start-up time) with no further change is a stale program. "+
+		"The page is requested every 10 ms throughout. Oracle: after every burst the running program's response becomes exactly what a fresh build of the directory renders (computed from the model) - a response that is still different after max(30 s, 6 x the session's own start-up time) with no further change is a stale program. "+
 		"Non-trivial = a burst that mixes a text-only save with an expression save of another file; distinct by session")
 
 func templSrc(i, e, t int) string {
@@ -97,7 +97,9 @@ func waitBody(url, want string, d time.Duration) (last string, ok bool) {
 		if time.Now().After(deadline) {
 			return last, false
 		}
-		time.Sleep(100 * time.Millisecond)
+		// the page is requested continuously, as a polled fragment or several open tabs do: the
+		// program never gets a quiet moment between two renders
+		time.Sleep(10 * time.Millisecond)
 	}
 }
 
